@@ -59,6 +59,10 @@ func (h *History) End(i int, outVal, outVer, err string) {
 	o.OutVal, o.OutVer, o.Err, o.Ret, o.done = outVal, outVer, err, h.tick, true
 }
 
+// Drop leaves operation i out of the judged history (a call that was refused before it could take effect; if it did
+// take effect after all, its value shows up as a phantom).
+func (h *History) Drop(i int) { h.Ops[i].done = false }
+
 // Tick returns a fresh timestamp (for multi-key calls whose legs share one interval).
 func (h *History) Tick() int64 { h.tick++; return h.tick }
 
